@@ -14,6 +14,7 @@ type p1Case struct {
 	Cfg     scen.P1Config `json:"cfg"`
 	FileDmg []int         `json:"fdmg"` // per file: 0 ok, 1 deleted, 2 last byte changed, 3 truncated by one, 4 emptied, 5 garbage of same length
 	VolDel  []int         `json:"voldel,omitempty"` // volumes (1-based) deleted
+	VolDmg  []int         `json:"voldmg,omitempty"` // per volume: 0 ok, 1 deleted, 2 one byte corrupted, 3 replaced by a foreign set's volume, 4 truncated
 	DC      bool          `json:"dc,omitempty"`
 	Extra   []string      `json:"extra,omitempty"`
 }
@@ -46,6 +47,28 @@ func applyP1(s *scen.P1Set, c *p1Case, seed int64) *envfs.FS {
 	}
 	for _, v := range c.VolDel {
 		fs.Del(scen.VolPath(s.Index, v))
+	}
+	for v, k := range c.VolDmg {
+		p := scen.VolPath(s.Index, v+1)
+		b, ok := fs.Get(p)
+		if !ok {
+			continue
+		}
+		switch k {
+		case 1:
+			fs.Del(p)
+		case 2:
+			nb := append([]byte{}, b...)
+			nb[len(nb)-1] ^= 0x01
+			fs.Put(p, nb)
+		case 3:
+			other, err := scen.GetP1(scen.P1Config{Sizes: []int{len(s.Data[0]) + 1, 3}, Volumes: len(c.VolDmg)}, seed+99)
+			if err == nil {
+				fs.Put(p, other.FS0.Files[scen.VolPath(other.Index, v+1)])
+			}
+		case 4:
+			fs.Put(p, b[:len(b)-1])
+		}
 	}
 	for i, e := range c.Extra {
 		fs.Put(e, scen.Garbage(seed, 600+i, 7))
